@@ -40,6 +40,7 @@ func (c *ocodeClient) Emit(line string) error {
 		log.Printf("error: [ocode_client] cannot emit '%s': %v", strings.TrimSpace(line), err)
 		return err
 	}
+	ocode.BitMode = c.bitMode // この時点で有効な [BITS n] を記録する
 	c.Ocodes = append(c.Ocodes, ocode)
 	return nil
 }
@@ -99,6 +100,7 @@ func (c *ocodeClient) SetSymbolTable(symTable map[string]int32) {
 
 // SetBitMode メソッドの実装
 func (c *ocodeClient) SetBitMode(mode cpu.BitMode) { // Change cpu.BitMode to cpu.BitMode
+	c.bitMode = mode // 以降に Emit される命令のモード
 	c.ctx.BitMode = mode
 }
 
